@@ -2,7 +2,10 @@ module verif
 
 go 1.23.0
 
-require github.com/janelia-flyem/dvid v0.0.0
+require (
+	github.com/janelia-flyem/dvid v0.0.0
+	google.golang.org/protobuf v1.33.0
+)
 
 require (
 	cloud.google.com/go v0.110.0 // indirect
@@ -75,7 +78,6 @@ require (
 	google.golang.org/api v0.114.0 // indirect
 	google.golang.org/genproto v0.0.0-20230410155749-daa745c078e1 // indirect
 	google.golang.org/grpc v1.56.3 // indirect
-	google.golang.org/protobuf v1.33.0 // indirect
 )
 
 replace github.com/janelia-flyem/dvid => /repo
